@@ -238,8 +238,18 @@ impl Interp {
     }
 
     fn match_fields(&self, fs: &[(usize, &Pat)], v: &V, env: Env) -> R<Option<Env>> {
-        self.peek(v)?;
         match &**v {
+            // a record / tuple pattern cannot fail: every field of a deferred failure is one
+            Val::Poison => {
+                let mut env = env;
+                for (_, q) in fs {
+                    match self.match_pat(q, v, env)? {
+                        Some(e) => env = e,
+                        None => return Ok(None),
+                    }
+                }
+                Ok(Some(env))
+            }
             Val::Data(_, vs) => {
                 let mut env = env;
                 for (i, q) in fs {
